@@ -1579,7 +1579,10 @@ impl LsmTree {
                 return Err(logic_error("verif: stopped while stalled"));
             }
             #[cfg(rescrv_blue_verif)]
-            crate::verif::parked_enter();
+            {
+                crate::verif::INGEST_STALLS.fetch_add(1, std::sync::atomic::Ordering::SeqCst);
+                crate::verif::parked_enter();
+            }
             mutex = self.stall.wait(mutex).unwrap();
             #[cfg(rescrv_blue_verif)]
             crate::verif::parked_exit();
